@@ -97,9 +97,8 @@ Theorem C18_blob_upsert_refines_tree : forall H, (forall x, length (H x) = HASH_
   Abs H s ot -> in_range k v h -> room s -> step_ok H (OUpsert k v h) s ot (TUpsert k v h).
 Proof. exact upsert_step. Qed.
 
-(* batch_insert: a batch the plain map rejects (a key or hash already present or twice in the batch, former
-   F-C18-1 / F-C18-3) is rejected by the blob as well and nothing changes; the accepted case is proved at
-   L1 (C18_tree_op_refines_map) and validated by execution at L2 *)
+(* batch_insert, rejected case: a batch the plain map rejects (a key or hash already present or twice in the
+   batch, former F-C18-1 / F-C18-3) is rejected by the blob as well and nothing changes *)
 Theorem C18_blob_batch_rejects_duplicates : forall H s ot items,
   Abs H s ot -> m_batch items (ot_kv ot) = None ->
   exists e, step2 H (OBatch items) s = (Err e, s) /\ step1 H (TBatch items) ot = (false, ot).
@@ -143,25 +142,36 @@ Theorem C18_blob_reload_equivalent : forall H s t, Inv_tree H s t ->
   exists s', reload (bytes_of_blocks (blocks s)) = Ok s' /\ blob_equiv s s' /\ Inv_tree H s' t.
 Proof. exact reload_ok. Qed.
 
-(* FULL STATEMENT:
-     forall H ops, (forall x, length (H x) = 32) -> Forall op_in_range ops -> rooms H ops empty_blob ->
-       let '(s, m, fine) := run_joint H ops empty_blob [] in
-       fine = true /\ Inv H s /\ good_state H s m
-   (good_state = content_is /\ check_integrity = Ok tt /\ reload (bytes s) equivalent to s).
-   PROVED below: exactly this statement (plus Abs, abs s = the L1 tree, the L1 tree refines the plain map)
-   for ALL histories (induction over the list, no bound) of insert (any location), delete, upsert,
-   calculate_lazy_hashes, reload and every batch_insert the plain map rejects at that point.
-   MISSING (the one remaining step): a batch_insert the plain map ACCEPTS inside an L2 history, i.e. the
-   lemma `Abs H s ot -> m_batch items (ot_kv ot) = Some _ -> step_ok H (OBatch items) s ot (TBatch items)`
-   (batch_leaves / batch_levels on a forest of detached subtrees, get_min_height_leaf = t_min_leaf,
-   insert_subtree_at_key).  The hypothesis `rejected_batches` is exactly that exclusion.  The accepted batch
-   is proved at L1 (C18_tree_op_refines_map) and its L2 link is validated by execution (flag 'a'). *)
-Theorem C18_blob_history_refines_map_partial : forall H, (forall x, length (H x) = HASH_BYTES) -> forall ops,
-  Forall op_in_range ops -> rooms H ops empty_blob -> rejected_batches H ops empty_blob [] ->
+(* batch_insert, accepted case: the blob operation (the two leading inserts at the Auto location when the tree
+   has at most one leaf, one new leaf block per remaining item, pairwise joining level by level, attachment
+   left of the first leaf in breadth-first order) has exactly the effect of the L1 batch; Inv is preserved.
+   room_for: a batch of n items needs at most 2 n + 2 new blocks below 2^32. *)
+Theorem C18_blob_batch_refines_tree : forall H, (forall x, length (H x) = HASH_BYTES) ->
+  forall s ot m items m',
+  Abs H s ot -> tree_refines H ot m -> op_in_range (OBatch items) -> room_for (OBatch items) s ->
+  m_batch items m = Some m' -> step_ok H (OBatch items) s ot (TBatch items).
+Proof. exact accepted_batch_step. Qed.
+
+(* THE END-TO-END STATEMENT, for ALL raw histories (induction over the operation list, no bound) of insert
+   (any location), delete, upsert, batch_insert (accepted or rejected), calculate_lazy_hashes and reload:
+   no operation panics or runs out of fuel, the final blob satisfies Inv, its content is the plain map the
+   history produces, check_integrity = Ok tt, reloading its bytes gives an equivalent blob; it represents the
+   L1 tree (abs), which refines the plain map.  Hypotheses: H returns 32 bytes; inputs in the range of the Rust
+   types; before every operation the blob has room below 2^32 blocks (TreeIndex is u32; the model does not wrap). *)
+Theorem C18_blob_history_refines_map : forall H, (forall x, length (H x) = HASH_BYTES) -> forall ops,
+  Forall op_in_range ops -> rooms H ops empty_blob ->
   let '(s', m', fine) := run_joint H ops empty_blob [] in
   fine = true /\ Inv H s' /\ good_state H s' m' /\
   exists ot', Abs H s' ot' /\ abs s' = Some ot' /\ tree_refines H ot' m'.
 Proof. intros H Hlen. exact (blob_history_good H Hlen). Qed.
+
+(* alias under the former name (referred to by MANIFEST.json); the statement is the complete one above *)
+Theorem C18_blob_history_refines_map_partial : forall H, (forall x, length (H x) = HASH_BYTES) -> forall ops,
+  Forall op_in_range ops -> rooms H ops empty_blob ->
+  let '(s', m', fine) := run_joint H ops empty_blob [] in
+  fine = true /\ Inv H s' /\ good_state H s' m' /\
+  exists ot', Abs H s' ot' /\ abs s' = Some ot' /\ tree_refines H ot' m'.
+Proof. exact C18_blob_history_refines_map. Qed.
 
 (* ================= non-vacuity ================= *)
 Theorem C18_invariant_inhabited : exists s t, Inv_tree sha256 s t /\ abs s = Some (Some (erase t)).
